@@ -36,6 +36,9 @@ CSV_FILES = {
     'combined': HDR + 'M[amount:50-200][date:2024-01-01..2024-12-31],Combo,Misc,Sub,a|b\nM[amount>200][month=6],June,Misc,,\nM,Plain,Misc,,\n',
     'nocat': HDR + 'FOO,Foo,,,\nBAR,Bar,Cat,,\nFOO,Foo2,Cat2,,t\n',
     'names': HDR + 'XX,Name ] odd,Cat: x,Sub,\nYY,A B  C,Cat,,t1| t2 \nZZ,Depot (Reno),Rental Property #2,Unit #4 Repairs,gifts # holiday\n',
+    # separators that str.splitlines() honours but the CSV reader and a split on newline do not (form feed from PDF exports, FS/GS/RS, VT; NEL and U+2028 from pasted text)
+    'ctrlnames': HDR + 'FF,Form\x0cFeed,Cat\x0bV,Sub\x1cF,t\x1dg\nRS,Rec\x1eSep,Cat,,\nFF,Plain,Cat,,\n',
+    'uninames': HDR + 'NL,Next\x85Line,Cat\u2028LS,Sub\u2029PS,tag\nNL,Plain,Cat,,\n',
     'reversed': HDR + 'REV[amount:200-50],Rev,Misc,,\nREVD[date:2024-08-31..2024-08-01],RevD,Misc,,r\nREV,Plain,Misc,,\nREVD,PlainD,Misc,,\n',      # ranges written high-to-low
     'interleaved': HDR + 'LYFT,Lyft,Transport,Ride,\nUBER\\s*EATS,Uber Eats,Food,Delivery,\nUBER,Uber,Transport,Ride,\nCOSTCO,Costco,Shopping,,\n\\bGAS\\b,Gas,Transport,Fuel,\n',
 }
